@@ -170,29 +170,37 @@ Theorem C13_mislabelled_symmetric_key_rejected_at_import :
 Proof. exact mislabelled_symmetric_key_rejected_at_import. Qed.
 Print Assumptions C13_mislabelled_symmetric_key_rejected_at_import.
 
-(* REFUTED (finding, reported; the model transcribes the code as it is): "the
-   no-secrets APIs fail for every keyset containing private key material" is
-   false for composite ML-DSA PUBLIC keys: the classical_public_key slot may
-   hold the key data of a classical PRIVATE key (NewPublicKey only compares
-   the classical key's parameters).  All labels are ASYMMETRIC_PUBLIC and the
-   serializer writes ASYMMETRIC_PUBLIC, so the no-secrets import accepts the
-   keyset and WriteWithNoSecrets writes it, the private seed included; no
-   verifier can be made of the key.  Witness: an ML-DSA-65 / Ed25519 composite
-   public key whose classical slot holds an Ed25519 private key; confirmed on
-   the implementation (findings/composite_public_key_carries_private_key, C14
-   directed case composite-classical-slot-ED25519Raw). *)
-Theorem C13_public_composite_key_can_hold_a_private_key_refuted :
-  exists e,
-    cw_handle = [e]
-    /\ has_secrets cw_keyset = false
-    /\ handle_no_secrets cw_std (Some cw_keyset) = Ok cw_handle
-    /\ ekey e = PComposite false true [] (Some cw_seed)
-    /\ out_material e = km_public
-    /\ write_no_secrets cw_handle = Ok (ser_keyset (proto_of_handle cw_handle))
-    /\ is_infix cw_seed (ser_keyset (proto_of_handle cw_handle)) = true
-    /\ prim_ok cw_std (ekey e) = Ok false.
-Proof. exact public_composite_key_can_hold_a_private_key_refuted. Qed.
-Print Assumptions C13_public_composite_key_can_hold_a_private_key_refuted.
+(* A composite ML-DSA PUBLIC key the parser accepts holds a classical PUBLIC
+   key: both nested key data are labelled ASYMMETRIC_PUBLIC and were accepted
+   by the parser of a public key type.  (This clause was REFUTED before /repo
+   bcdec3e: NewPublicKey only compared the classical key's parameters, so the
+   classical slot could hold a private key, which the no-secrets import
+   accepted and WriteWithNoSecrets wrote out under a public label; finding
+   composite_public_key_carries_private_key.)  With C13_no_secrets_import_iff_export,
+   which covers the composite types, import and export agree for them too. *)
+Theorem C13_composite_public_key_holds_public_classical_key :
+  forall (L : stdlib) kd prefix idreq d,
+    parse_composite L false kd prefix idreq = Ok d ->
+    let ckd := keydata_of (get_sub 3 (fields_or_nil (kd_value kd))) in
+    let mkd := keydata_of (get_sub 2 (fields_or_nil (kd_value kd))) in
+    kd_mat kd = km_public
+    /\ parse_mldsa_pub mkd pt_raw 0 = Ok PMlDsaPub /\ kd_mat mkd = km_public
+    /\ exists cd, parse_key_base L ckd pt_raw 0 = Ok cd /\ classical_public_kind cd = true /\ kd_mat ckd = km_public.
+Proof. exact composite_public_key_holds_public_classical_key. Qed.
+Print Assumptions C13_composite_public_key_holds_public_classical_key.
+
+(* the witness of the finding, now refused by every entry point; with the
+   public key in the slot the same keyset is imported and exported *)
+Theorem C13_composite_public_key_with_private_classical_key_rejected :
+  parse_key_base cw_std cw_private_classical pt_raw 0 = Ok (PEd25519Priv cw_seed)
+  /\ has_secrets (cw_keyset cw_private_classical) = false
+  /\ handle_from_proto cw_std (Some (cw_keyset cw_private_classical)) = Err
+  /\ handle_no_secrets cw_std (Some (cw_keyset cw_private_classical)) = Err
+  /\ read_no_secrets cw_std (ser_keyset (cw_keyset cw_private_classical)) = Err
+  /\ exists h, handle_no_secrets cw_std (Some (cw_keyset cw_public_classical)) = Ok h
+        /\ write_no_secrets h = Ok (ser_keyset (cw_keyset cw_public_classical)).
+Proof. exact composite_public_key_with_private_classical_key_rejected. Qed.
+Print Assumptions C13_composite_public_key_with_private_classical_key_rejected.
 
 (* Non-interference: KeysetInfo() - and String(), its text form, whatever the
    text encoder - depend only on (type url, status, id, prefix type, primary):
